@@ -4,6 +4,7 @@ from __future__ import annotations
 
 import os
 import re
+import zlib
 import shutil
 import tempfile
 import xml.parsers.expat as expat
@@ -113,10 +114,10 @@ def _lit(s: str) -> str:
 FIELDS = {
     'epytext': dict(onesect='@@CNS97@@ x\n' + '=' * _NS_LEN + '\n\nThe only section.', sect='\u00e9 @@CNS99@@\n' + '=' * _NS_LEN + '\n\nSection text.\n\n@@CNS98@@ \u043f\n' + '-' * _NS_LEN + '\n\nSubsection text.', param='@param a: pa @@CAN17@@', typ='@type a: C{{@@CNQ18@@}}', badparam='@param @@CAN19@@: unknown param',
                     rais='@raise @@CAN20@@: exc @@CAN35@@', ret='@return: r @@CAN21@@', see='@see: @@CAN22@@', unk='@unknownfield @@CAN23@@: x',
-                    ivar='@ivar iv: d @@CAN26@@', cvar='@cvar @@CAN27@@: bad name', rtype='@rtype: @@CNQ32@@', inline='C{{@@CAN36@@}} B{{@@CAN37@@}} U{{label<http://example.com/@@CAQ70@@>}} U{{http://example.com/@@CAQ71@@}} L{{@@CAW74@@ <canpkg.mod.f>}} L{{@@CAW75@@ <nosuchtarget>}} U{{@@CAW76@@ <http://example.com/>}}'),
+                    ivar='@ivar iv: d @@CAN26@@', cvar='@cvar @@CAN27@@: bad name\n    @ivar @@CNS96@@: a name that is well-formed markup\n    @cvar x@@CNS95@@y: another one', rtype='@rtype: @@CNQ32@@', inline='C{{@@CAN36@@}} B{{@@CAN37@@}} U{{label<http://example.com/@@CAQ70@@>}} U{{http://example.com/@@CAQ71@@}} L{{@@CAW74@@ <canpkg.mod.f>}} L{{@@CAW75@@ <nosuchtarget>}} U{{@@CAW76@@ <http://example.com/>}}'),
     'restructuredtext': dict(onesect='@@CNS97@@ x\n' + '=' * (_NS_LEN + 6) + '\n\nThe only section.', sect='\u00e9 @@CNS99@@\n' + '=' * (_NS_LEN + 6) + '\n\nSection text.\n\n@@CNS98@@ \u043f\n' + '-' * (_NS_LEN + 6) + '\n\nSubsection text.', param=':param a: pa @@CAN17@@', typ=':type a: ``@@CNQ18@@``', badparam=':param @@CAN19@@: unknown param',
                              rais=':raise @@CAN20@@: exc @@CAN35@@', ret=':return: r @@CAN21@@', see=':see: @@CAN22@@', unk=':unknownfield @@CAN23@@: x',
-                             ivar=':ivar iv: d @@CAN26@@', cvar=':cvar @@CAN27@@: bad name', rtype=':rtype: @@CNQ32@@', inline='``@@CAN36@@`` **@@CAN37@@** `label <http://example.com/@@CAQ70@@>`_ http://example.com/@@CAQ71@@ `label <http://example.com/@@CAQ77@@>` `label <https://example.com/x@@CAQ78@@ y>` `<ftp://example.com/@@CAQ79@@>`\n\n.. image:: http://example.com/x.png\n   :alt: alt @@CAQ72@@\n\n.. code-block:: bash\n\n   echo @@CAW90@@\n\n.. code:: json\n\n   {{"k": "@@CAW92@@"}}\n\n.. code:: python\n\n   x = "@@CAW93@@"\n\nTarget_ text.\n\n.. _Target: http://example.com/@@CAQ73@@'),
+                             ivar=':ivar iv: d @@CAN26@@', cvar=':cvar @@CAN27@@: bad name\n    :ivar @@CNS96@@: a name that is well-formed markup\n    :cvar x@@CNS95@@y: another one', rtype=':rtype: @@CNQ32@@', inline='``@@CAN36@@`` **@@CAN37@@** `label <http://example.com/@@CAQ70@@>`_ http://example.com/@@CAQ71@@ `label <http://example.com/@@CAQ77@@>` `label <https://example.com/x@@CAQ78@@ y>` `<ftp://example.com/@@CAQ79@@>`\n\n.. image:: http://example.com/x.png\n   :alt: alt @@CAQ72@@\n\n.. code-block:: bash\n\n   echo @@CAW90@@\n\n.. code:: json\n\n   {{"k": "@@CAW92@@"}}\n\n.. code:: python\n\n   x = "@@CAW93@@"\n\nTarget_ text.\n\n.. _Target: http://example.com/@@CAQ73@@'),
     'google': dict(onesect='@@CNS97@@ x\n' + '=' * (_NS_LEN + 6) + '\n\nThe only section.', sect='', param='Args:\n        a: pa @@CAN17@@\n        @@CAN19@@ (@@CNQ18@@): unknown param', typ='', badparam='',
                    rais='Raises:\n        @@CAN20@@: exc @@CAN35@@', ret='Returns:\n        r @@CAN21@@', see='See Also:\n        @@CAN22@@', unk='Note:\n        @@CAN23@@',
                    ivar='Attributes:\n        iv: d @@CAN26@@\n        @@CAN27@@: bad name', cvar='', rtype='', inline='``@@CAN36@@`` **@@CAN37@@** `label <http://example.com/@@CAQ70@@>`_ http://example.com/@@CAQ71@@ `label <http://example.com/@@CAQ77@@>` `label <https://example.com/x@@CAQ78@@ y>` `<ftp://example.com/@@CAQ79@@>`\n\n.. image:: http://example.com/x.png\n   :alt: alt @@CAQ72@@\n\n.. code-block:: bash\n\n   echo @@CAW90@@\n\n.. code:: json\n\n   {{"k": "@@CAW92@@"}}\n\n.. code:: python\n\n   x = "@@CAW93@@"'),
@@ -381,6 +382,15 @@ def _render_pair(res: core.Res, label: str, sources: Dict[str, Tuple[bool, str]]
                         roots.append(d / (parts[-1] + '.py'))
             out = str(base / variant / 'out')
             try:
+                if zlib.crc32(label.encode()) % 3 == 0:
+                    # the output directory already holds the pages of a previous run (the same sources under a longer project name, so
+                    # that every page written now is shorter than the file it replaces)
+                    try:
+                        render.render(roots, out, args + ['--project-name=' + 'the-previous-run-' * 6])
+                    except BaseException as e0:  # noqa: BLE001
+                        if isinstance(e0, (KeyboardInterrupt, core.CpuTimeout)):
+                            raise
+                    res.c('renders_over_a_previous_run')
                 render.render(roots, out, args)
             except BaseException as e:  # noqa: BLE001
                 if isinstance(e, (KeyboardInterrupt, core.CpuTimeout)):
